@@ -14,10 +14,10 @@ os.makedirs(dst)
 shutil.copy(os.path.join(src, "patch.diff"), dst)
 for name in os.listdir(src):
     p = os.path.join(src, name)
-    if name in ("patch.diff", "meta.json") or name.startswith("confirm-") or name.endswith(".log") or name == "target":
+    if name in ("patch.diff", "meta.json", "tmp", "work") or name.startswith("confirm") or name.endswith(".log") or name == "target":
         continue
     if os.path.isdir(p):
-        shutil.copytree(p, os.path.join(dst, name), ignore=shutil.ignore_patterns("target", "*.rs.bk", "Cargo.lock.orig"))
+        shutil.copytree(p, os.path.join(dst, name), ignore=shutil.ignore_patterns("target", "*.rs.bk", "Cargo.lock.orig", "work", "tmp"))
     elif os.path.getsize(p) < 200000:
         shutil.copy(p, dst)
 # drop generated parsers and build output from the demonstration
@@ -31,14 +31,23 @@ try:
 except Exception:
     pass
 conf = {}
-log = os.path.join(ROOT, "harness/target/scratch/confirm.log")
-if os.path.exists(log):
-    for ln in open(log):
-        m = re.match(r"CONFIRM %s/%s (.*)" % (P, K), ln)
-        if m:
-            for kv in m.group(1).split():
-                if "=" in kv:
-                    k, v = kv.split("=", 1); conf[k] = v
+for name in ("confirm.log", "confirm2.log", "confirm4.log", "confirm5.log"):     # later logs (manual re-runs) override
+    log = os.path.join(ROOT, "harness/target/scratch", name)
+    if os.path.exists(log):
+        for ln in open(log):
+            m = re.match(r"CONFIRM4? %s/%s (.*)" % (P, K), ln)
+            if m:
+                for kv in m.group(1).split():
+                    if "=" in kv:
+                        k, v = kv.split("=", 1); conf[k] = v
+if "agent_full_suite_ok" not in conf:
+    for name in ("test-run.log", "test.log", "test_output.txt", "test_suite.log", "test-suite.log"):
+        f = os.path.join(src, name)
+        if os.path.exists(f):
+            t = open(f, errors="replace").read()
+            conf["agent_full_suite_ok"] = str(len(re.findall(r"^test result: ok", t, re.M)))
+            conf["agent_full_suite_failed"] = str(len(re.findall(r"^test result: FAILED", t, re.M)))
+            break
 out = {"property": P, "id": "%s-%s" % (P, K), "summary": meta.get("summary", ""), "needs": meta.get("needs", ""),
        "files": meta.get("files", []), "author": "independent sub-agent given only the property record and a scratch worktree",
        "confirmed_by_coordinator": {
